@@ -60,6 +60,8 @@ CHECKS = {
              'opts': {'time_res': 1000000, 'panic_is_violation': True}, 'quick': {'K': 1}, 'thorough': {'K': 1}},
             {'name': 'Harness_C09_assertion', 'pkg': 'saml', 'replay': 'direct', 'must_reach': ['returned'],
              'opts': {'time_res': 1000000, 'panic_is_violation': True}, 'quick': {'K': 2}, 'thorough': {'K': 3}},
+            {'name': 'Harness_C09_logout', 'pkg': 'saml', 'replay': 'direct', 'must_reach': ['returned'],
+             'opts': {'time_res': 1000000, 'panic_is_violation': True, 'K': 1}},
             {'name': 'Harness_C09_flate', 'pkg': 'saml', 'replay': 'direct', 'must_reach': ['read', 'refused']},
             {'name': 'Harness_C09_idpvalidate', 'pkg': 'saml', 'replay': 'direct', 'must_reach': ['returned'],
              'opts': {'time_res': 1000000, 'panic_is_violation': True}, 'quick': {'K': 1}, 'thorough': {'K': 2}},
@@ -73,6 +75,17 @@ CHECKS = {
              'opts': {'time_res': 1000000},
              'quick': {'K': 1, 'lens_by_tag': [['SPSSODescriptors', [1, 0]], ['AssertionConsumerServices', [1, 0, 2]]]},
              'thorough': {'K': 1, 'lens_by_tag': [['SPSSODescriptors', [1, 0, 2]], ['AssertionConsumerServices', [1, 0, 2]]]}},
+        ],
+    },
+    'C18': {
+        'level_text': 'path exploration + z3 decide that both logout entry points report valid only for a rooted document whose root carries a trusted signature and whose Destination, Issuer, Status and freshness are right, and that such a response is accepted; counterexamples replayed natively on real signed XML.',
+        'level_note': 'real ValidateLogoutResponseForm / Redirect, validateLogoutResponse, validateSignature and the helpers of the response flow executed from SSA on a materialised LogoutResponse (arbitrary fields, Issuer nil-able, unsigned / trusted / untrusted signature, or no root element). The library reads time.Now() here: the harness clock and the library clock are assumed to be within one second of each other. base64/flate are contract stubs (inverse of the encoder used by the harness). goxmldsig Validate as in C01.',
+        'harnesses': [
+            # the library reads the wall clock itself: only witnesses with a minute of margin are replayed for translator validation
+            {'name': 'Harness_C18_form', 'pkg': 'saml', 'replay': 'direct', 'must_reach': ['valid', 'rejected', 'valid-with-margin'],
+             'validate_labels': ['valid-with-margin', 'rejected'], 'opts': {'time_res': 1000000, 'K': 1}},
+            {'name': 'Harness_C18_redirect', 'pkg': 'saml', 'replay': 'direct', 'must_reach': ['valid', 'rejected', 'valid-with-margin'],
+             'validate_labels': ['valid-with-margin', 'rejected'], 'opts': {'time_res': 1000000, 'K': 1}},
         ],
     },
     'C12': {
